@@ -23,7 +23,9 @@ func TestMain(m *testing.M) {
 	vstat.Main(m.Run)
 }
 
-var cfg = world.GenCfg{MaxActors: 5, MaxDepth: 3, Failures: true, Hooks: true, Kills: true, Become: true, Spawns: true, MaxOps: 8, LifecycleFail: true, Watch: true}
+// restart decisions are drawn three times as often as the others: the restart clauses need a completed restart
+var cfg = world.GenCfg{MaxActors: 5, MaxDepth: 3, Failures: true, Hooks: true, Kills: true, Become: true, Spawns: true, MaxOps: 8, LifecycleFail: true, Watch: true,
+	Decisions: []string{"restart", "restart", "restart", "grestart", "grestart", "grestart", "stop", "gstop", "resume", "escalate"}}
 
 type verdict struct{ sig, detail string }
 
